@@ -228,6 +228,20 @@ pub fn run_server(sc: &Value) -> Value {
         }
         per.push(got.len());
     }
+    // optional: frames sent on one more connection, everything received within 600 ms is returned
+    let mut probe = String::new();
+    if let Some(frames) = sc["probe_frames"].as_array() {
+        drop(socks);
+        std::thread::sleep(Duration::from_millis(100));
+        if let Ok(mut s) = TcpStream::connect(addr) {
+            s.set_nodelay(true).unwrap();
+            for f in frames {
+                let _ = s.write_all(&unhex(f.as_str().unwrap()));
+            }
+            let (got, _closed) = read_for(&mut s, 600);
+            probe = hex(&got);
+        }
+    }
     std::mem::forget(rt);
-    json!({"served": served, "answered_bytes": per})
+    json!({"served": served, "answered_bytes": per, "probe_received": probe})
 }
